@@ -101,24 +101,6 @@ theorem getAttenuation_eq (c : Cal ℝ) (f L L' v : ℝ) (h : getSf c f L' 0 = .
 
 /-! ## mean scale factor with attenuation (fixed code, `C07_fix_1`) -/
 
-theorem collect_scale (g : ℝ) (l : List (Res ℝ)) :
-    collect (l.map (Res.map (g * ·))) = (collect l).map (List.map (g * ·)) := by
-  induction l with
-  | nil => rfl
-  | cons r t ih =>
-    simp only [List.map_cons, collect, ih]
-    cases r <;> cases collect t <;> simp [Res.map]
-
-theorem sumList_scale (g : ℝ) (l : List ℝ) : sumList (l.map (g * ·)) = g * sumList l := by
-  induction l with
-  | nil => simp [sumList]
-  | cons a t ih => simp only [List.map_cons, sumList, ih]; ring
-
-theorem getSf_att_map (c : Cal ℝ) (f L A d : ℝ) :
-    getSf c f L (A + d) = (getSf c f L A).map ((10 : ℝ) ^ (d / 20) * ·) := by
-  simp only [getSf]
-  cases getSens c f <;> simp [sfOf_add_att]
-
 /-- `get_mean_sf(flb, fub, L, A + d) = 10^(d/20) · get_mean_sf(flb, fub, L, A)`, errors unchanged. -/
 theorem getMeanSf_attenuation (c : Cal ℝ) (flb : ℝ) (freqs : List ℝ) (L A d : ℝ) :
     getMeanSf c flb freqs L (A + d) = (getMeanSf c flb freqs L A).map ((10 : ℝ) ^ (d / 20) * ·) := by
@@ -270,30 +252,6 @@ theorem getSens_interp_at_knot (t : List (ℝ × ℝ)) (g : ℝ) (hs : SortedTbl
 
 /-! ## point calibrations answer only at calibrated frequencies -/
 
-theorem lookup_absent (t : List (ℝ × ℝ)) (f : ℝ) (h : ∀ r ∈ t, r.1 ≠ f) : lookup t f = .calErr := by
-  induction t with
-  | nil => rfl
-  | cons r t ih =>
-    obtain ⟨x, y⟩ := r
-    have hx : x ≠ f := h (x, y) (by simp)
-    simp only [lookup, eqb_real, hx, decide_false, Bool.false_eq_true, if_false]
-    exact ih (fun r hr => h r (by simp [hr]))
-
-theorem lookup_present (t : List (ℝ × ℝ)) (f y : ℝ) (hd : (t.map (·.1)).Nodup) (hm : (f, y) ∈ t) :
-    lookup t f = .val y := by
-  induction t with
-  | nil => simp at hm
-  | cons r t ih =>
-    obtain ⟨x, y'⟩ := r
-    simp only [List.map_cons, List.nodup_cons] at hd
-    rcases List.mem_cons.mp hm with e | e
-    · injection e with e1 e2; subst e1; subst e2; simp [lookup]
-    · have hx : x ≠ f := by
-        intro hxf; subst hxf
-        exact hd.1 (List.mem_map.mpr ⟨(x, y), e, rfl⟩)
-      simp only [lookup, eqb_real, hx, decide_false, Bool.false_eq_true, if_false]
-      exact ih hd.2 e
-
 theorem point_absent (t : List (ℝ × ℝ)) (g f : ℝ) (h : ∀ r ∈ t, r.1 ≠ f) :
     getSens (.point t g) f = .calErr := by
   simp [getSens, lookup_absent t f h]
@@ -318,17 +276,6 @@ theorem calErr_propagates (c : Cal ℝ) (f L A v : ℝ) (h : getSens c f = .calE
 /-- A number only ever comes out where the sensitivity is defined. -/
 theorem val_needs_sens (c : Cal ℝ) (f L A x : ℝ) (h : getSf c f L A = .val x) : ∃ S, getSens c f = .val S := by
   obtain ⟨S, hS, _⟩ := Res.map_eq_val h; exact ⟨S, hS⟩
-
-theorem collect_val_all {l : List (Res ℝ)} {vs : List ℝ} (h : collect l = .val vs) : ∀ r ∈ l, ∃ v, r = .val v := by
-  induction l generalizing vs with
-  | nil => simp
-  | cons r t ih =>
-    intro r' hr'
-    simp only [collect] at h
-    cases r <;> cases hc : collect t <;> simp [hc] at h
-    rcases List.mem_cons.mp hr' with e | e
-    · exact ⟨_, e⟩
-    · exact ih hc r' e
 
 /-- `get_mean_sf` of a frequency-dependent calibration returns a number only if *every* frequency of the
 requested range is calibrated (otherwise it raises). -/
